@@ -205,6 +205,15 @@ def free_reads(block):
         elif isinstance(st, ast.With):
             for it in st.items: loads(it.context_expr)
             for x in st.body: stmt(x)
+        elif isinstance(st, ast.Try):
+            for x in st.body: stmt(x)
+            for h in st.handlers:
+                if h.type is not None: loads(h.type)
+                if h.name: stored.add(h.name)
+                for x in h.body: stmt(x)
+            for x in st.orelse + st.finalbody: stmt(x)
+        elif isinstance(st, ast.AugAssign):
+            loads(st.value); loads(st.target)
         else: loads(st)
     for st in block: stmt(st)
     return sorted(set(out))
@@ -250,6 +259,20 @@ def analyse(repo):
             sk = target.slice
             lk = g.args[0]
             if src(sk) != src(lk): raise Unknown('%s: stored under %s, looked up with %s' % (qual, src(sk), src(lk)))
+    # ormtypes.parse_raw_sql: raw_sql_cache keyed by the fragment text; the miss branch reads nothing but the text
+    ormt = ast.parse(open(os.path.join(repo, 'pony', 'orm', 'ormtypes.py')).read())
+    prs = find_func(ormt, 'parse_raw_sql')
+    comps, g = key_of_site(prs, 'raw_sql_cache')
+    f['rawSqlKey'] = fields(comps, 'parse_raw_sql')
+    sets_ = cache_sets(prs, 'raw_sql_cache')
+    if len(sets_) != 1 or src(sets_[0][1].slice) != src(g.args[0]): raise Unknown('parse_raw_sql: stored under another key than looked up with')
+    blk = miss_block(prs, 'result')
+    if not blk: raise Unknown('parse_raw_sql: miss branch not found')
+    raw = [r for r in free_reads(blk) if r not in ('isinstance', 'str', 'TypeError', 'ValueError', 'compile', 'parse_expr', 'len', 'tuple', 'throw', 'raw_sql_cache')]
+    bad = [r for r in raw if r.split('.')[0] != 'sql']
+    if bad: raise Unknown('parse_raw_sql: the miss branch reads %r' % bad)
+    f['rawSqlReads'] = ['sql']
+    if assigns(prs, 'sql'): raise Unknown('parse_raw_sql: sql is rebound')
     # what each miss branch reads, from the source
     for name, qual, var in (('batchloadReads', 'EntityMeta._construct_batchload_sql_', 'cached_sql'), ('findReads', 'EntityMeta._construct_sql_', 'cached_sql'),
                             ('insertSqlReads', 'Entity._save_created_', 'cached_sql'), ('updateSqlReads', 'Entity._save_updated_', 'cached_sql'),
@@ -458,7 +481,7 @@ def render(f):
         lines.append(lst(name))
     lines.append('/-- the input fields each miss branch READS (free names and attribute paths of the block, extracted from the source and classified:')
     lines.append('    schema constants and pure helpers dropped, aliases and derived values mapped to the inputs they are functions of) -/')
-    for name in ('batchloadReads', 'findReads', 'insertSqlReads', 'updateSqlReads', 'deleteSqlReads', 'constructedSqlReads'):
+    for name in ('batchloadReads', 'findReads', 'insertSqlReads', 'updateSqlReads', 'deleteSqlReads', 'constructedSqlReads', 'rawSqlKey', 'rawSqlReads'):
         lines.append(lst(name))
     lines.append('/-- `Entity._load_` stores under `pk_attrs + (discriminator,)? + attrs` although it looks up with `attrs` -/')
     lines.append('def loadStoreRebound : Bool := %s' % b(f['loadStoreRebinds']))
